@@ -15,7 +15,7 @@ LEVEL = "exploration"
 N_QUICK, N_THOROUGH = 32000, 1000000
 T_QUICK, T_THOROUGH = 70, 1500
 FLOORS = {"scalar_echo_calls": 20000, "scalar_extremes": 3000, "object_address_calls": 5000, "addresses_after_growth": 800,
-          "pointer_arg_calls": 3000, "xobject_array_pointer_calls": 500, "slice_pointer_calls": 500, "noncontiguous_2d_pointer_calls": 500, "refusals_checked": 3000, "calls_via_attribute_dispatch": 5000,
+          "pointer_arg_calls": 3000, "xobject_array_pointer_calls": 200, "slice_pointer_calls": 200, "noncontiguous_2d_pointer_calls": 200, "refusals_checked": 3000, "calls_via_attribute_dispatch": 5000,
           "mixed_signature_calls": 500, "ctx:serial": 1000, "ctx:openmp": 1000}
 FLOORS.update({f"echo:{k}": 800 for k in SC})
 RULE = ("echo kernels compiled once per worker in a serial and an OpenMP ContextCpu: id_<T>(x) for the 10 scalar types, "
